@@ -145,13 +145,9 @@ def check(ctx):
                         ["config::Certificate::get_crt_dir", "%s-%s" % ("set" if cset else "unset", gstate)])
     # do_get_endpoint selects by name equality with self.endpoint
     de = prog.must_body(C + "::do_get_endpoint")
-    eqs = [c for c in de.calls if c.fn in ("core::cmp::PartialEq::eq", "core::cmp::PartialEq::ne")]
-    good = False
-    for c in eqs:
-        a, b = arg_origins(c, 0), arg_origins(c, 1)
-        f = a.fields | b.fields
-        if (E, "name") in f and (C, "endpoint") in f:
-            good = True
+    from .guards import name_lookup
+    nl = name_lookup(prog, C + "::do_get_endpoint")
+    good = (E, "name") in nl["fields"] and (C, "endpoint") in nl["fields"]
     ctx.require(R1, good, "%s:%s" % (de.file, de.line), "the certificate's endpoint is the one whose name equals certificate.endpoint", ["config::Certificate::do_get_endpoint", "by-name"])
     # wiring in MainEventLoop::new
     nb = prog.async_body("acmed::main_event_loop::MainEventLoop::new")
@@ -196,15 +192,12 @@ def check(ctx):
 
     R4 = ctx.rule("R4", "each file is read once: visited test + insertion on the canonical path before the open; includes resolved from the including file's canonical directory")
     opens = rc.calls_to("std::fs::File::open")
-    cont = rc.calls_to("alloc::collections::btree::set::BTreeSet::contains", "std::collections::hash::set::HashSet::contains")
-    ins = rc.calls_to("alloc::collections::btree::set::BTreeSet::insert", "std::collections::hash::set::HashSet::insert")
+    from .guards import visited_guard
+    neg, ins, cont, revisit = visited_guard(rc, lambda sl: sl.has_leaf("param:2"))
     ctx.floor(R4, "File::open in read_cnf", len(opens), 1)
     ctx.floor(R4, "visited-set test in read_cnf", len(cont), 1)
     ctx.floor(R4, "visited-set insertion in read_cnf", len(ins), 1)
-    neg = []
     for c in cont:
-        t, f = call_true_false_edges(rc, c)
-        neg += f
         ctx.require(R4, arg_origins(c, 1).via_any("std::path::Path::canonicalize"), c.where(), "the visited test uses the canonical path", ["config::read_cnf", "test-canonical"])
     for c in ins:
         ctx.require(R4, arg_origins(c, 1).via_any("std::path::Path::canonicalize"), c.where(), "the recorded path is the canonical path", ["config::read_cnf", "insert-canonical"])
@@ -213,7 +206,7 @@ def check(ctx):
     ok, hit = unreachable_without(rc, [c.bb for c in opens], removed_nodes=[c.bb for c in ins])
     ctx.require(R4, ok and ins, opens[0].where() if opens else "-", "the file is recorded as visited before it is opened/parsed (cycles terminate)", ["config::read_cnf", "insert-before-open"])
     # already-loaded answer is an empty configuration
-    for (sbb, tg) in [e for c in cont for e in call_true_false_edges(rc, c)[0]]:
+    for (sbb, tg) in revisit:
         r = rc.reachable([tg])
         ctx.require(R4, any(x.bb in r for x in rc.calls_to("core::default::Default::default")) and not any(o.bb in r for o in opens), where(rc, sbb),
                     "an already loaded file contributes an empty Config", ["config::read_cnf", "revisit-empty"])
@@ -228,15 +221,8 @@ def check(ctx):
     R5 = ctx.rule("R5", "unresolved endpoint / rate limit / hook / group / account and duplicate certificate ids are errors that reach MainEventLoop::new's caller")
     for key, what in ((C + "::do_get_endpoint", "unknown endpoint"), (CFG + "::get_rate_limit", "unknown rate limit"), (CFG + "::do_get_hook", "unknown hook or group")):
         b = prog.must_body(key)
-        okb, errb, fwd = result_return_kinds(b)
-        # every Ok is inside a loop body reached through a successful name comparison; exhausting the lists gives Err
-        eqs = [c for c in b.calls if c.fn in ("core::cmp::PartialEq::eq",)]
-        tr = []
-        for c in eqs:
-            t, f = call_true_false_edges(b, c)
-            tr += t
-        good, hit = unreachable_without(b, okb, removed_edges=tr)
-        ctx.require(R5, bool(tr) and good and bool(errb), "%s:%s" % (b.file, b.line), "%s: Ok only after a name matched, otherwise Err (%s)" % (key.rsplit("::", 1)[1], what), [key, "not-found-error"])
+        nl = name_lookup(prog, key)
+        ctx.require(R5, nl["good"], "%s:%s" % (b.file, b.line), "%s: Ok only after a name matched, otherwise Err (%s; shape %s)" % (key.rsplit("::", 1)[1], what, nl["shape"]), [key, "not-found-error"])
     # the recursive expansion of a group keeps every failure: each do_get_hook call inside do_get_hook is tested and its error edge
     # cannot reach Ok; inside a closure its Result must be handed to an error-preserving adaptor (map/try_*), never to
     # flat_map/filter_map/flatten/ok(), which iterate a Result as "zero or one item" and drop the error
